@@ -91,7 +91,12 @@ class AutonomousModeSelector:
         try:
             autonomous_pkg = importlib.import_module(autonomous_pkgname)
         except ImportError as e:
-            if e.name not in [autonomous_pkgname, autonomous_pkgname.split(".")[0]]:
+            # only a module that cannot be found means "there is no such
+            # package"; any other ImportError comes from the package's own code
+            if not isinstance(e, ModuleNotFoundError) or e.name not in [
+                autonomous_pkgname,
+                autonomous_pkgname.split(".")[0],
+            ]:
                 # the package exists but something it imports does not:
                 # same policy as for the modules inside it
                 if not wpilib.DriverStation.isFMSAttached():
